@@ -484,7 +484,7 @@ func detectsCollision(info *types.Info, fd *ast.FuncDecl) bool {
 // checkRouteClash: the builder template registers handlers under (METHOD, path.Clean(path));
 // the Go side must refuse, for a server, two operations that share that key.
 func checkRouteClash(c *Ctx, rule string, gen *packages.Package) {
-	c.Rule(rule, "planning a server fails when two operations share the registration key of the handler map (method + cleaned path)", 1)
+	c.Rule(rule, "planning a server fails when two operations share a slot of the router (method + cleaned path with parameter names erased)", 1)
 	fd := load.FuncDecl(gen, "appGenerator.makeCodegenApp")
 	if fd == nil {
 		c.Anchor(rule, "generator.appGenerator.makeCodegenApp", "not found")
@@ -500,7 +500,7 @@ func checkRouteClash(c *Ctx, rule string, gen *packages.Package) {
 		if _, isLocal := ast.Unparen(rs.X).(*ast.Ident); !isLocal {
 			return true
 		}
-		lookup, errRet, cleaned, method := false, false, false, false
+		lookup, errRet, cleaned, method, unnamed := false, false, false, false, false
 		ast.Inspect(rs.Body, func(m ast.Node) bool {
 			switch x := m.(type) {
 			case *ast.AssignStmt:
@@ -514,6 +514,16 @@ func checkRouteClash(c *Ctx, rule string, gen *packages.Package) {
 			case *ast.CallExpr:
 				if fn := goan.Callee(info, x); fn != nil && goan.CalleeName(fn) == "path.Clean" && len(x.Args) == 1 && goan.LastSel(x.Args[0]) == "Path" {
 					cleaned = true
+				}
+				// parameter names are erased: <package-level regexp>.ReplaceAllString(…, <const>) maps /a/{x} and /a/{yy} to the same text
+				if se, ok := x.Fun.(*ast.SelectorExpr); ok && se.Sel.Name == "ReplaceAllString" && len(x.Args) == 2 {
+					if lit, ok := packageRegexpLiteral(gen, se.X); ok {
+						if repl, ok := goan.StringVal(info, x.Args[1]); ok {
+							if rx, err := regexp.Compile(lit); err == nil && rx.ReplaceAllString("/a/{x}/b", repl) == rx.ReplaceAllString("/a/{yy}/b", repl) && rx.ReplaceAllString("/a/b", repl) == "/a/b" {
+								unnamed = true
+							}
+						}
+					}
 				}
 			case *ast.SelectorExpr:
 				if x.Sel.Name == "Method" {
@@ -542,11 +552,46 @@ func checkRouteClash(c *Ctx, rule string, gen *packages.Package) {
 			}
 			return true
 		})
-		if lookup && errRet && cleaned && method && !nested {
+		if lookup && errRet && cleaned && method && unnamed && !nested {
 			found, pos = true, rs.Pos()
 		}
 		return true
 	})
 	c.Check(found, rule, "generator.appGenerator.makeCodegenApp › clash of (method, path.Clean(path)) is an error", c.posOf(gen, pos), "lookup in a map keyed by method and cleaned path, error on a hit",
-		"nothing refuses two operations that share the handler-map key (method + cleaned path, e.g. GET /items and GET /items/): the handler registered last serves both and one operation is unreachable")
+		"nothing refuses two operations that share a router slot (method + cleaned path with parameter names erased, e.g. GET /items and GET /items/, or GET /items/{id} and GET /items/{itemId}/): the handler registered last serves both and one operation is unreachable")
+}
+
+
+// packageRegexpLiteral: e is a package-level variable initialised by regexp.MustCompile(<literal>).
+func packageRegexpLiteral(pk *packages.Package, e ast.Expr) (string, bool) {
+	id, ok := ast.Unparen(e).(*ast.Ident)
+	if !ok {
+		return "", false
+	}
+	obj := pk.TypesInfo.Uses[id]
+	if obj == nil || obj.Parent() != pk.Types.Scope() {
+		return "", false
+	}
+	for _, f := range pk.Syntax {
+		for _, d := range f.Decls {
+			gd, ok := d.(*ast.GenDecl)
+			if !ok || gd.Tok != token.VAR {
+				continue
+			}
+			for _, sp := range gd.Specs {
+				vs := sp.(*ast.ValueSpec)
+				for i, nm := range vs.Names {
+					if pk.TypesInfo.Defs[nm] != obj || i >= len(vs.Values) {
+						continue
+					}
+					if call, ok := vs.Values[i].(*ast.CallExpr); ok && len(call.Args) == 1 {
+						if fn := goan.Callee(pk.TypesInfo, call); fn != nil && goan.CalleeName(fn) == "regexp.MustCompile" {
+							return goan.StringVal(pk.TypesInfo, call.Args[0])
+						}
+					}
+				}
+			}
+		}
+	}
+	return "", false
 }
